@@ -57,3 +57,35 @@ package bmtree
 //@     invariant !dedup ==> len(rst) == rangeindex + 1 && (forall i int :: 0 <= i && i <= rangeindex ==> rst[i] == pathOf(keys[i], frombit, height))
 //@     invariant dedup ==> len(rst) == cntKept(keys, frombit, height, rangeindex + 1) && len(rst) <= rangeindex + 1
 //@     invariant dedup ==> (forall i int :: 0 <= i && i <= rangeindex && keptPath(keys, frombit, height, i) ==> 0 <= cntKept(keys, frombit, height, i) && cntKept(keys, frombit, height, i) < len(rst) && rst[cntKept(keys, frombit, height, i)] == pathOf(keys[i], frombit, height))
+
+// ---- C03-C05 / C19: index <-> path ----
+
+//@ func shiftMulti returns (r)
+//@   assigns nothing
+//@   loop 1
+//@     invariant true
+
+//@ func PathToIndex returns (idx)
+//@   assigns nothing
+
+//@ func PathToIndexLoose returns (idx, has)
+//@   assigns nothing
+
+//@ func IndexToPath returns (p)
+//@   assigns nothing
+//@   loop 1
+//@     invariant true
+
+//@ func AllPaths returns (paths)
+//@   ensures fresh(paths)
+//@   assigns nothing
+//@   loop 1
+//@     invariant fresh(paths)
+//@   loop 2
+//@     invariant fresh(paths)
+
+//@ func Decode returns (rst)
+//@   ensures fresh(rst)
+//@   assigns nothing
+//@   loop 1
+//@     invariant fresh(rst)
